@@ -223,14 +223,51 @@ def gen_c10(r, tier, info):
     return cases
 
 
+def post_c10(bs, cases, reals, info):
+    """the RELATION of the property on the observed tags: the tag every constructor reports must be a
+    back end the configuration permits (evaluated by the Lean `Permitted`), portable when no SIMD
+    back end is permitted, and the safe SIMD constructors return Some iff std && detected."""
+    import hh, os
+    fails = []
+    tags = set()
+    for k, b in enumerate(bs):
+        ti = getattr(b, "tagidx", None)
+        if not ti or reals[k] is None:
+            continue
+        for t in ti:
+            o = reals[k][t] if t < len(reals[k]) else ""
+            if not o.startswith("tag="):
+                fails.append((k, f"HighwayHasher Debug output has no tag: {o[:60]}"))
+            else:
+                tags.add(o[4:])
+        std = info.get("std") == "1"
+        want_sse = "ok" if (std and info.get("cpu_sse41") == "1") else "none"
+        want_avx = "ok" if (std and info.get("cpu_avx2") == "1") else "none"
+        for idx_from_end, want, nm in ((4, want_sse, "SseHash::new"), (3, want_avx, "AvxHash::new"),
+                                       (2, want_sse, "SseHash::from_checkpoint"), (1, want_avx, "AvxHash::from_checkpoint")):
+            got = reals[k][len(cases[k].ops) - idx_from_end]
+            if got != want:
+                fails.append((k, f"{nm} returned {got} but std={info.get('std')} detected sse41={info.get('cpu_sse41')} avx2={info.get('cpu_avx2')}"))
+    if tags:
+        q = hh.Case([f"permitted {t}" for t in sorted(tags)] + ["nosimd"])
+        outs, _ = hh.run_model([q], os.path.join(hh.BUILD, "work", "C10"), "permq", info["_line"], shards=1)
+        o = outs[0] or []
+        for t, ans in zip(sorted(tags), o):
+            if ans != "yes":
+                fails.append((0, f"HighwayHasher selected back end tag {t}, which the configuration `{info['_line']}` does not permit"))
+        if o and o[-1] == "yes" and tags != {"0"}:
+            fails.append((0, f"no SIMD back end is permitted in `{info['_line']}` but tag(s) {sorted(tags)} were selected"))
+    return fails
+
+
 PROPS = {
     "C01": dict(gen=gen_c01, quick=["dev-std-base", "rel-std-base"],
                 thorough=["dev-std-base", "rel-std-base", "rel-nostd-base", "rel-std-native"], spec_oracle=True),
-    "C02": dict(gen=gen_c02, quick=QUICK_CONFIGS, thorough=all_configs()),
+    "C02": dict(gen=gen_c02, quick=QUICK_CONFIGS, thorough=all_configs(), cpus=["none", "sse41"]),
     "C05": dict(gen=gen_c05, quick=["dev-std-base", "rel-nostd-avx2"], thorough=["dev-std-base", "rel-std-base", "rel-nostd-avx2", "dev-nostd-sse41"]),
     "C06": dict(gen=gen_c06, quick=["dev-std-base", "rel-std-base"], thorough=["dev-std-base", "rel-std-base", "rel-nostd-sse41", "dev-std-native"]),
     "C07": dict(gen=gen_c07, quick=["dev-std-base", "rel-nostd-base"], thorough=["dev-std-base", "rel-std-base", "rel-nostd-base", "dev-nostd-avx2", "rel-std-sse41noavx"]),
-    "C10": dict(gen=gen_c10, quick=QUICK_CONFIGS, thorough=all_configs()),
+    "C10": dict(gen=gen_c10, quick=QUICK_CONFIGS, thorough=all_configs(), cpus=["none", "sse41", "avx2"], post=post_c10),
     "C11": dict(gen=gen_c11, quick=["dev-std-base", "rel-std-base"], thorough=["dev-std-base", "rel-std-base", "dev-nostd-sse41", "rel-nostd-avx2"]),
     "C12": dict(gen=gen_c12, quick=["dev-std-base", "rel-std-base"], thorough=["dev-std-base", "rel-std-base", "rel-nostd-base", "dev-std-avx2"]),
     "C13": dict(gen=gen_c13, quick=["dev-std-base", "rel-std-base"], thorough=["dev-std-base", "rel-std-base", "rel-nostd-sse41", "dev-nostd-base", "rel-std-avx2"]),
